@@ -19,7 +19,7 @@ E3 = ((0, 1, 0), (1, 0, 0), (1, 1, 1))
 E4 = ((0, 1, 0), (1, 0, 0), (1, 1, 1), (0, 2, 1))
 PASSIVE = ((0, 1), (1, 0), (0, 2), (1, 1))
 BOUNDS = {
-    "quick": {"alphabet": "E3: (0,1,X) (1,0,X) (1,1,Y)", "K_per_bucket": 2, "buckets": ["passive(4 events)", "A", "B"]},
+    "quick": {"alphabet": "E3: (0,1,X) (1,0,X) (1,1,Y)", "K_per_bucket": {"A": 2, "B": 1}, "buckets": ["passive(4 events)", "A", "B"]},
     "thorough": {"alphabet": "E4: (0,1,X) (1,0,X) (1,1,Y) (0,2,Y)", "K_per_bucket": 2, "buckets": ["passive(4 events)", "A", "B"]},
 }
 RULE = (
@@ -144,7 +144,7 @@ def _expand(hist):
     self_canon = S.canon_full(ds)
     succ = []
     # building ops on A and B (frame-checked too)
-    blds = [(bid, op) for bid in BUCKETS for op in build_ops(ms[bid], E, K)]
+    blds = [(bid, op) for bid in BUCKETS for op in build_ops(ms[bid], E, K if bid == "A" else c["KB"])]
     probes = probe_ops(ds, ms, E)
     other_instants = {b: {(v[0], v[0] + v[1]) for v in ms[b].live.values()} for b in BUCKETS}
     for bid, op in blds:
@@ -214,7 +214,7 @@ def run(ctx):
     _G["E"] = E4 if ctx.thorough else E3
     per = {}
     for backend in S.BACKENDS:
-        _G["cfg"] = {"backend": backend, "K": 2, "Ename": Ename}
+        _G["cfg"] = {"backend": backend, "K": 2, "KB": 2 if ctx.thorough else 1, "Ename": Ename}
         agg, seen = engine.bfs(ctx, _expand, [()], label=backend)
         per[backend] = {"states": agg.states, "transitions": agg.transitions, "max_depth": agg.max_depth}
         from mc.props.c02 import _merge
